@@ -19,8 +19,8 @@ func init() {
 	register("C03", checkC03)
 	addBreakers("C02",
 		Breaker{Name: "insert-transaction-before-volumes", File: "internal/storage/ledger/transactions.go",
-			Old: "\tpostCommitVolumes, err := store.UpdateVolumes(ctx, tx.VolumeUpdates()...)\n\tif err != nil {\n\t\treturn fmt.Errorf(\"failed to update balances: %w\", err)\n\t}\n\ttx.PostCommitVolumes = postCommitVolumes.Copy()\n\n\terr = store.InsertTransaction(ctx, tx)\n\tif err != nil {\n\t\treturn fmt.Errorf(\"failed to insert transaction: %w\", err)\n\t}\n",
-			New: "\terr := store.InsertTransaction(ctx, tx)\n\tif err != nil {\n\t\treturn fmt.Errorf(\"failed to insert transaction: %w\", err)\n\t}\n\tpostCommitVolumes, err := store.UpdateVolumes(ctx, tx.VolumeUpdates()...)\n\tif err != nil {\n\t\treturn fmt.Errorf(\"failed to update balances: %w\", err)\n\t}\n\ttx.PostCommitVolumes = postCommitVolumes.Copy()\n",
+			Old:    "\tpostCommitVolumes, err := store.UpdateVolumes(ctx, tx.VolumeUpdates()...)\n\tif err != nil {\n\t\treturn fmt.Errorf(\"failed to update balances: %w\", err)\n\t}\n\ttx.PostCommitVolumes = postCommitVolumes.Copy()\n\n\terr = store.InsertTransaction(ctx, tx)\n\tif err != nil {\n\t\treturn fmt.Errorf(\"failed to insert transaction: %w\", err)\n\t}\n",
+			New:    "\terr := store.InsertTransaction(ctx, tx)\n\tif err != nil {\n\t\treturn fmt.Errorf(\"failed to insert transaction: %w\", err)\n\t}\n\tpostCommitVolumes, err := store.UpdateVolumes(ctx, tx.VolumeUpdates()...)\n\tif err != nil {\n\t\treturn fmt.Errorf(\"failed to update balances: %w\", err)\n\t}\n\ttx.PostCommitVolumes = postCommitVolumes.Copy()\n",
 			Expect: "DOM/commit-transaction"},
 		Breaker{Name: "volumes-only-when-moves-history", File: "internal/storage/ledger/transactions.go",
 			Old: "\terr = store.InsertTransaction(ctx, tx)\n\tif err != nil {", New: "\tif store.ledger.HasFeature(features.FeatureMovesHistory, \"ON\") {\n\t\tif err := store.InsertTransaction(ctx, tx); err != nil {\n\t\t\treturn err\n\t\t}\n\t\treturn nil\n\t}\n\terr = store.InsertTransaction(ctx, tx)\n\tif err != nil {", Expect: "commit-transaction"},
@@ -42,8 +42,8 @@ func init() {
 		Breaker{Name: "unwinding-forward-order", File: "internal/storage/ledger/transactions.go",
 			Old: "\t\tslices.Reverse(postings)\n", New: "", Expect: "iterates-reversed-private-copy"},
 		Breaker{Name: "snapshot-after-subtraction", File: "internal/storage/ledger/transactions.go",
-			Old: "\t\t\tpostCommitVolumes.AddInput(posting.Destination, posting.Asset, new(big.Int).Neg(posting.Amount))\n\n\t\t\tmoves = append(moves, &ledger.Move{\n\t\t\t\tIsSource:          true,",
-			New: "\t\t\tpostCommitVolumes.AddInput(posting.Destination, posting.Asset, new(big.Int).Neg(posting.Amount))\n\t\t\tpostCommitVolumes.AddOutput(posting.Source, posting.Asset, new(big.Int).Neg(posting.Amount))\n\n\t\t\tmoves = append(moves, &ledger.Move{\n\t\t\t\tIsSource:          true,",
+			Old:  "\t\t\tpostCommitVolumes.AddInput(posting.Destination, posting.Asset, new(big.Int).Neg(posting.Amount))\n\n\t\t\tmoves = append(moves, &ledger.Move{\n\t\t\t\tIsSource:          true,",
+			New:  "\t\t\tpostCommitVolumes.AddInput(posting.Destination, posting.Asset, new(big.Int).Neg(posting.Amount))\n\t\t\tpostCommitVolumes.AddOutput(posting.Source, posting.Asset, new(big.Int).Neg(posting.Amount))\n\n\t\t\tmoves = append(moves, &ledger.Move{\n\t\t\t\tIsSource:          true,",
 			Old2: "\t\t\t\tTransactionID:     *tx.ID,\n\t\t\t})\n\t\t\tpostCommitVolumes.AddOutput(posting.Source, posting.Asset, new(big.Int).Neg(posting.Amount))\n", New2: "\t\t\t\tTransactionID:     *tx.ID,\n\t\t\t})\n",
 			Expect: "step-order"},
 		Breaker{Name: "source-move-snapshots-destination", File: "internal/storage/ledger/transactions.go",
